@@ -39,6 +39,10 @@ func runC17(c *an.Ctx) {
 	r17n(c)
 	r17o(c)
 	r17p(c)
+	// round 8
+	r17q(c)
+	r17r(c)
+	fieldWriters(c, "R17s", "basicTaskBase.pendingFinalTaskStateCh is made once, at launch", "executor/executable", "basicTaskBase", "pendingFinalTaskStateCh", map[string]bool{"(*executor/executable.basicTaskBase).doLaunch": true}, "the reaper of a run reads this channel after Wait(); replaced by the next start, the stopped run finds no pending state and is reported as failed instead of killed", 1)
 }
 
 const exPkg = "executor/executable"
